@@ -560,4 +560,5 @@ def _b3(rep: Report, pid: str, seed: int, n_sessions: int, tmp: str):
 def _risky_batch(args):
     from . import drive_spec
     seed, n = args
-    return [drive_spec.random_session(i + 1, seed * 100003 + i, length=14, risky=True) for i in range(n)]
+    return [drive_spec.twin_session(i + 1, seed * 100019 + i) if i % 4 == 3 else drive_spec.random_session(i + 1, seed * 100003 + i, length=14, risky=True)
+            for i in range(n)]
